@@ -83,7 +83,7 @@ theorem argmaxGeneric_spec (o : Cmp α) (ht : o.Total) (C rows : Nat) (hC : 0 < 
     intro s x
     simp only [genericStep, genericArgmaxRel, Rel.eval]
     by_cases hc : o.le s.score (f x.1 x.2) = true
-    · simpa [hc] using hc
+    · simp [hc]
     · simpa [hc] using ht.refl _
   have hstep2 : ∀ (s : Best α) (x : Coord),
       o.le (f x.1 x.2) (genericStep o f x.1 s x.2).score = true := by
@@ -1069,6 +1069,364 @@ theorem dispMaxU8_agrees (o : Cmp UInt8) (ho : IsU8 o) (arm : Backend) (rows : N
   (maxAgree_of_specs o rows 32 f _ _ (dispMaxU8_none_iff o arm rows f)
     (maxGeneric_eq_none_iff o 32 rows f) (dispMaxU8_spec o ho arm rows f)
     (maxGeneric_spec o ho.total 32 rows (by omega) f)).eq ho.anti
+
+/-! ### `StripedScores::{max, argmax, threshold}` (offsets) and `Scores` -/
+
+theorem offset_inj (rows : Nat) (c d : Coord) (hc : c.1 < rows) (hd : d.1 < rows)
+    (h : c.2 * rows + c.1 = d.2 * rows + d.1) : c = d := by
+  have hpos : 0 < rows := by omega
+  have h1 : ∀ e : Coord, e.1 < rows → (e.2 * rows + e.1) % rows = e.1 := by
+    intro e he; rw [Nat.mul_comm, Nat.mul_add_mod]; exact Nat.mod_eq_of_lt he
+  have h2 : ∀ e : Coord, e.1 < rows → (e.2 * rows + e.1) / rows = e.2 := by
+    intro e he; rw [Nat.mul_comm, Nat.mul_add_div hpos, Nat.div_eq_of_lt he]; rfl
+  have e1 : c.1 = d.1 := by rw [← h1 c hc, ← h1 d hd, h]
+  have e2 : c.2 = d.2 := by rw [← h2 c hc, ← h2 d hd, h]
+  exact Prod.ext e1 e2
+
+/-- `StripedScores::argmax` (float, any forced arm): the offset of a cell holding the maximum -/
+theorem striped_argmaxF32_spec (o : Cmp α) (ht : o.Total) (hbot : ∀ v, o.le o.negInf v = true)
+    (arm : Backend) (s : Striped α 32) (hle : s.data.rows ≤ 4294967296) (p : Nat)
+    (h : s.argmaxF32 o arm = .ok (some p)) :
+    ∃ c, HoldsMax o s.data.rows 32 (s.cell o) c ∧ p = c.2 * s.data.rows + c.1 := by
+  simp only [Striped.argmaxF32] at h
+  split at h
+  · cases h
+  next a ha =>
+  simp only [Except.ok.injEq, Option.map_eq_some_iff] at h
+  obtain ⟨c, rfl, rfl⟩ := h
+  exact ⟨c, dispArgmaxF32_spec o ht hbot arm _ _ hle _ c ha, rfl⟩
+
+theorem striped_argmaxF32_none_iff (o : Cmp α) (arm : Backend) (s : Striped α 32)
+    (hmi : s.maxIndex ≤ 4294967295) : s.argmaxF32 o arm = .ok none ↔ s.data.rows = 0 := by
+  simp only [Striped.argmaxF32]
+  split
+  · next e he =>
+    constructor
+    · intro h; cases h
+    · intro h0
+      have := (dispArgmaxF32_none_iff o arm s.maxIndex s.data.rows hmi (s.cell o)).2 h0
+      rw [this] at he; cases he
+  · next a ha =>
+    rw [← dispArgmaxF32_none_iff o arm s.maxIndex s.data.rows hmi (s.cell o), ha]
+    cases a <;> simp
+
+/-- `StripedScores::max` (float, any forced arm) -/
+theorem striped_maxF32_spec (o : Cmp α) (ht : o.Total) (arm : Backend) (s : Striped α 32) (v : α)
+    (h : s.maxF32 o arm = some v) : IsMax o s.data.rows 32 (s.cell o) v :=
+  dispMaxF32_spec o ht arm _ _ v h
+
+theorem striped_maxF32_none_iff (o : Cmp α) (arm : Backend) (s : Striped α 32) :
+    s.maxF32 o arm = none ↔ s.data.rows = 0 := dispMaxF32_none_iff o arm _ _
+
+/-- `StripedScores::argmax` (u8, any forced arm) -/
+theorem striped_argmaxU8_spec (o : Cmp UInt8) (ho : IsU8 o) (arm : Backend) (s : Striped UInt8 32)
+    (p : Nat) (h : s.argmaxU8 o arm = .ok (some p)) :
+    ∃ c, HoldsMax o s.data.rows 32 (s.cell o) c ∧ p = c.2 * s.data.rows + c.1 := by
+  simp only [Striped.argmaxU8] at h
+  split at h
+  · cases h
+  next a ha =>
+  simp only [Except.ok.injEq, Option.map_eq_some_iff] at h
+  obtain ⟨c, rfl, rfl⟩ := h
+  exact ⟨c, dispArgmaxU8_spec o ho arm _ _ c ha, rfl⟩
+
+/-- `StripedScores::max` (u8, any forced arm) -/
+theorem striped_maxU8_spec (o : Cmp UInt8) (ho : IsU8 o) (arm : Backend) (s : Striped UInt8 32)
+    (v : UInt8) (h : s.maxU8 o arm = some v) : IsMax o s.data.rows 32 (s.cell o) v :=
+  dispMaxU8_spec o ho arm _ _ v h
+
+/-- `StripedScores::threshold`: the offsets of exactly the cells `>= t`, each once, whatever arm -/
+theorem striped_threshold_spec (o : Cmp α) (arm : Backend) (s : Striped α 32) (t : α) :
+    (s.threshold o arm t).Nodup ∧
+    ∀ p, p ∈ s.threshold o arm t ↔
+      ∃ c : Coord, c.1 < s.data.rows ∧ c.2 < 32 ∧ o.le t (s.cell o c.1 c.2) = true ∧
+        p = c.2 * s.data.rows + c.1 := by
+  constructor
+  · simp only [Striped.threshold, List.Nodup]
+    rw [List.pairwise_map]
+    refine List.Pairwise.imp_of_mem ?_ (thresholdGeneric_nodup o 32 s.data.rows (s.cell o) t)
+    intro a b ha hb hab heq
+    have ha' := (mem_thresholdGeneric o 32 _ _ t a).1 ha
+    have hb' := (mem_thresholdGeneric o 32 _ _ t b).1 hb
+    exact hab (offset_inj s.data.rows a b ha'.1 hb'.1 heq)
+  · intro p
+    simp only [Striped.threshold, List.mem_map, mem_thresholdGeneric, Striped.offset]
+    constructor
+    · rintro ⟨c, ⟨h1, h2, h3⟩, rfl⟩; exact ⟨c, h1, h2, h3, rfl⟩
+    · rintro ⟨c, h1, h2, h3, rfl⟩; exact ⟨c, ⟨h1, h2, h3⟩, rfl⟩
+
+/-- the threshold set does not depend on the arm -/
+theorem striped_threshold_arm (o : Cmp α) (arm arm' : Backend) (s : Striped α 32) (t : α) :
+    s.threshold o arm t = s.threshold o arm' t := rfl
+
+theorem scoresMax_none_iff (o : Cmp α) (l : List α) : scoresMax o l = none ↔ l = [] :=
+  reduce1_eq_none _ l
+
+/-- `Scores::max` -/
+theorem scoresMax_spec (o : Cmp α) (ht : o.Total) (l : List α) (v : α)
+    (h : scoresMax o l = some v) : v ∈ l ∧ ∀ x ∈ l, o.le x v = true :=
+  reduce1_maxLike o ht _ (iterMaxOp_maxLike o ht) l v h
+
+theorem scoresArgmax_none_iff (o : Cmp α) (l : List α) : scoresArgmax o l = none ↔ l = [] := by
+  simp only [scoresArgmax, Option.map_eq_none_iff, reduce1_eq_none]
+  cases l <;> simp [List.zipIdx_cons]
+
+/-- `Scores::argmax` -/
+theorem scoresArgmax_spec (o : Cmp α) (ht : o.Total) (l : List α) (i : Nat)
+    (h : scoresArgmax o l = some i) :
+    ∃ v, l[i]? = some v ∧ ∀ x ∈ l, o.le x v = true := by
+  simp only [scoresArgmax, Option.map_eq_some_iff] at h
+  obtain ⟨⟨v, j⟩, hr, rfl⟩ := h
+  -- the reduction is `max_by_key` on the value component
+  have hop : (fun (x y : α × Nat) => if o.lt y.1 x.1 = true then x else y) =
+      fun b x => if o.le b.1 x.1 = true then x else b := by
+    funext x y
+    rw [ht.lt_iff]
+    cases o.le x.1 y.1 <;> simp
+  have hm : maxByKeyLast o.le (fun (x : α × Nat) => x.1) l.zipIdx = some (v, j) := by
+    cases hz : l.zipIdx with
+    | nil => rw [hz] at hr; simp [reduce1] at hr
+    | cons a t => rw [hz] at hr; simp only [reduce1, hop] at hr; simpa [maxByKeyLast] using hr
+  obtain ⟨hmem, hdom⟩ := maxByKeyLast_spec o ht (fun (x : α × Nat) => x.1) l.zipIdx (v, j) hm
+  refine ⟨v, List.mk_mem_zipIdx_iff_getElem?.1 hmem, ?_⟩
+  intro x hx
+  obtain ⟨k, hk⟩ := List.mem_iff_getElem?.1 hx
+  exact hdom (x, k) (List.mk_mem_zipIdx_iff_getElem?.2 hk)
+
+/-- `Scores::threshold`: exactly the positions whose score is `>= t`, each once -/
+theorem scoresThreshold_spec (o : Cmp α) (l : List α) (t : α) :
+    (scoresThreshold o l t).Nodup ∧
+    ∀ i, i ∈ scoresThreshold o l t ↔ ∃ v, l[i]? = some v ∧ o.le t v = true := by
+  constructor
+  · have hsub : ((l.zipIdx.filter fun x => o.le t x.1).map (·.2)).Sublist (l.zipIdx.map (·.2)) :=
+      List.Sublist.map _ List.filter_sublist
+    refine List.Nodup.sublist hsub ?_
+    rw [List.zipIdx_map_snd]
+    exact List.nodup_range'
+  · intro i
+    simp only [scoresThreshold, List.mem_map, List.mem_filter]
+    constructor
+    · rintro ⟨⟨v, j⟩, ⟨hm, hle⟩, rfl⟩
+      exact ⟨v, List.mk_mem_zipIdx_iff_getElem?.1 hm, hle⟩
+    · rintro ⟨v, hv, hle⟩
+      exact ⟨(v, i), ⟨List.mk_mem_zipIdx_iff_getElem?.2 hv, hle⟩, rfl⟩
+
+/-! ### The padding clause: a −∞ wildcard column makes every window past the end score −∞ -/
+
+section Padding
+variable {β : Type}
+
+/-- the symbol read at position `p` of a sequence of length `L` striped with wildcard padding `N` -/
+def padSym (s : Nat → Nat) (L N : Nat) (p : Nat) : Nat := if p < L then s p else N
+
+/-- definition-level score of the window at position `i`: the left fold of `add` over the `M` rows
+    of the scoring matrix `m` (row `j`, symbol `a` ↦ `m j a`), starting from `zero` -/
+def windowScore (add : β → β → β) (zero : β) (m : Nat → Nat → β) (M : Nat) (sym : Nat → Nat)
+    (i : Nat) : β :=
+  (List.range M).foldl (fun acc j => add acc (m j (sym (i + j)))) zero
+
+/-- with an absorbing `bot` in the wildcard column, every window that reaches past the end of the
+    sequence scores `bot` -/
+theorem windowScore_past_end (add : β → β → β) (zero bot : β) (hbot : ∀ x, add x bot = bot)
+    (m : Nat → Nat → β) (M N : Nat) (hN : ∀ j, j < M → m j N = bot) (hM : 0 < M)
+    (s : Nat → Nat) (L i : Nat) (hi : L < i + M) :
+    windowScore add zero m M (padSym s L N) i = bot := by
+  obtain ⟨k, rfl⟩ : ∃ k, M = k + 1 := ⟨M - 1, by omega⟩
+  simp only [windowScore, List.range_succ, List.foldl_append, List.foldl_cons, List.foldl_nil]
+  have : padSym s L N (i + k) = N := by simp only [padSym]; rw [if_neg (by omega)]
+  rw [this, hN k (by omega), hbot]
+
+/-- Hence, in a striped score matrix (`cell (r, c)` = score of position `c * R + r`) over a total
+    preorder in which nothing but `bot` is `<= bot`: if some position has a score other than `bot`
+    (by `windowScore_past_end` it is then a valid position, `i + M <= L`), any cell holding the
+    maximum is a valid position, and its score dominates the score of every valid position — the
+    maximum over all cells is the best valid score. -/
+theorem max_is_best_valid (o : Cmp β) (add : β → β → β) (zero bot : β)
+    (hbot : ∀ x, add x bot = bot) (hbotmin : ∀ x, o.le x bot = true → x = bot)
+    (m : Nat → Nat → β) (M N : Nat) (hN : ∀ j, j < M → m j N = bot) (hM : 0 < M)
+    (s : Nat → Nat) (L R C : Nat) (p : Coord)
+    (hp : HoldsMax o R C (fun r c => windowScore add zero m M (padSym s L N) (c * R + r)) p)
+    (i0 : Nat) (hi0c : i0 < R * C)
+    (hfin : windowScore add zero m M (padSym s L N) i0 ≠ bot) :
+    (p.2 * R + p.1) + M ≤ L ∧
+    ∀ i, i + M ≤ L → i < R * C →
+      o.le (windowScore add zero m M (padSym s L N) i)
+           (windowScore add zero m M (padSym s L N) (p.2 * R + p.1)) = true := by
+  have hR : 0 < R := by
+    rcases Nat.eq_zero_or_pos R with h | h
+    · subst h; simp at hi0c
+    · exact h
+  -- every position below R * C is a cell
+  have hcell : ∀ i, i < R * C →
+      o.le (windowScore add zero m M (padSym s L N) i)
+           (windowScore add zero m M (padSym s L N) (p.2 * R + p.1)) = true := by
+    intro i hi
+    have h1 : i % R < R := Nat.mod_lt _ hR
+    have h2 : i / R < C := by
+      apply Nat.div_lt_of_lt_mul
+      simpa [Nat.mul_comm] using hi
+    have h3 := hp.2.2 (i % R) (i / R) h1 h2
+    have h4 : i / R * R + i % R = i := by
+      rw [Nat.mul_comm]; exact Nat.div_add_mod i R
+    simpa [h4] using h3
+  refine ⟨?_, fun i _ hic => hcell i hic⟩
+  -- the designated position cannot reach past the end: its score would be `bot`
+  apply Nat.le_of_not_lt
+  intro hpast
+  have hpb := windowScore_past_end add zero bot hbot m M N hN hM s L (p.2 * R + p.1) hpast
+  have := hcell i0 hi0c
+  rw [hpb] at this
+  exact hfin (hbotmin _ this)
+
+/-- the same for the maximum *value*: it is the score of a valid position and dominates the
+    score of every valid position -/
+theorem max_value_is_best_valid (o : Cmp β) (add : β → β → β) (zero bot : β)
+    (hbot : ∀ x, add x bot = bot) (hbotmin : ∀ x, o.le x bot = true → x = bot)
+    (m : Nat → Nat → β) (M N : Nat) (hN : ∀ j, j < M → m j N = bot) (hM : 0 < M)
+    (s : Nat → Nat) (L R C : Nat) (v : β)
+    (hv : IsMax o R C (fun r c => windowScore add zero m M (padSym s L N) (c * R + r)) v)
+    (i0 : Nat) (hi0c : i0 < R * C)
+    (hfin : windowScore add zero m M (padSym s L N) i0 ≠ bot) :
+    (∃ i, i + M ≤ L ∧ i < R * C ∧ windowScore add zero m M (padSym s L N) i = v) ∧
+    ∀ i, i + M ≤ L → i < R * C → o.le (windowScore add zero m M (padSym s L N) i) v = true := by
+  obtain ⟨⟨r, c, hr, hc, hrc⟩, hdom⟩ := hv
+  simp only at hrc hdom
+  have hp : HoldsMax o R C (fun r c => windowScore add zero m M (padSym s L N) (c * R + r)) (r, c) := by
+    refine ⟨hr, hc, ?_⟩
+    intro r' c' hr' hc'
+    have := hdom r' c' hr' hc'
+    rw [← hrc] at this
+    exact this
+  obtain ⟨h1, h2⟩ := max_is_best_valid o add zero bot hbot hbotmin m M N hN hM s L R C (r, c) hp
+    i0 hi0c hfin
+  refine ⟨⟨c * R + r, h1, ?_, hrc⟩, ?_⟩
+  · calc c * R + r < c * R + R := by omega
+      _ = (c + 1) * R := by rw [Nat.add_mul, Nat.one_mul]
+      _ ≤ C * R := Nat.mul_le_mul_right R (by omega)
+      _ = R * C := Nat.mul_comm _ _
+  · intro i hi hic
+    have := h2 i hi hic
+    simp only [hrc] at this
+    exact this
+
+end Padding
+
+/-- every concrete pipeline reports the same float maximum as the generic one -/
+theorem pipeMaxF32_agrees (o : Cmp α) (ht : o.Total) (hbot : ∀ v, o.le o.negInf v = true)
+    (b : Backend) (C : Nat) (hsup : Supported b C) (maxIndex rows : Nat)
+    (hmi : maxIndex ≤ 4294967295) (hle : rows ≤ 4294967296) (f : Nat → Nat → α) (a : Option α)
+    (h : pipeMaxF32 o b C maxIndex rows f = .ok a) : MaxAgree o a (maxGeneric o C rows f) := by
+  have hC : 0 < C := by
+    cases b with
+    | generic => exact hsup
+    | sse2 => obtain ⟨q, hq, rfl⟩ := hsup; omega
+    | avx2 => cases hsup; omega
+  refine maxAgree_of_specs o rows C f _ _ ?_ (maxGeneric_eq_none_iff o C rows f) ?_
+    (maxGeneric_spec o ht C rows hC f)
+  · rw [← pipeMaxF32_none_iff o b C maxIndex rows hmi f, h]
+    constructor
+    · intro e; rw [e]
+    · intro e; cases e; rfl
+  · intro v hv
+    subst hv
+    exact pipeMaxF32_spec o ht hbot b C hsup maxIndex rows hle f v h
+
+/-- every concrete pipeline reports the same u8 maximum as the generic one -/
+theorem pipeMaxU8_agrees (o : Cmp UInt8) (ho : IsU8 o) (b : Backend) (C : Nat)
+    (hsup : Supported b C) (rows : Nat) (f : Nat → Nat → UInt8) :
+    pipeMaxU8 o b C rows f = maxGeneric o C rows f := by
+  have hC : 0 < C := by
+    cases b with
+    | generic => exact hsup
+    | sse2 => obtain ⟨q, hq, rfl⟩ := hsup; omega
+    | avx2 => cases hsup; omega
+  exact (maxAgree_of_specs o rows C f _ _ (pipeMaxU8_none_iff o b C rows f)
+    (maxGeneric_eq_none_iff o C rows f) (pipeMaxU8_spec o ho b C hsup rows f)
+    (maxGeneric_spec o ho.total C rows hC f)).eq ho.anti
+
+/-! ### Non-vacuity: the hypotheses are satisfiable and the kernels do return something -/
+
+section Examples
+
+deriving instance DecidableEq for Except
+
+/-- `Nat` with its order; `0` is both the zero pattern and the least element -/
+def natCmp : Cmp Nat := ⟨Nat.ble, Nat.blt, 0, 0⟩
+
+theorem natCmp_total : natCmp.Total := by
+  refine ⟨?_, ?_, ?_⟩
+  · intro a b; simp only [natCmp, Nat.ble_eq]; omega
+  · intro a b c; simp only [natCmp, Nat.ble_eq]; omega
+  · intro a b
+    simp only [natCmp]
+    rw [Bool.eq_iff_iff]
+    simp only [Nat.blt_eq, Bool.not_eq_true']
+    rw [← Bool.not_eq_true, Nat.ble_eq]
+    omega
+
+def u8Cmp : Cmp UInt8 := ⟨fun a b => decide (a ≤ b), fun a b => decide (a < b), 0, 0⟩
+
+theorem u8Cmp_isU8 : IsU8 u8Cmp := ⟨fun _ _ => rfl, fun _ _ => rfl, rfl⟩
+
+/-- a 3 × 32 matrix with maximum 50 planted at (2, 9) and again at (1, 20); everything else < 11 -/
+def demo (r c : Nat) : Nat :=
+  if (r = 2 ∧ c = 9) ∨ (r = 1 ∧ c = 20) then 50 else (7 * r + 3 * c) % 11
+
+def demoU8 (r c : Nat) : UInt8 := (demo r c).toUInt8
+
+example : natCmp.Total := natCmp_total
+example : ∀ v, natCmp.le natCmp.negInf v = true := by intro v; simp [natCmp]
+example : Supported .generic 4 ∧ Supported .sse2 32 ∧ Supported .avx2 32 :=
+  ⟨by show 0 < 4; decide, ⟨2, by decide, rfl⟩, rfl⟩
+-- the scans return a cell holding 50, not cell (0, 0); which of the two is left free
+example : argmaxGeneric natCmp 32 3 demo = some (2, 9) := by decide +kernel
+example : maxGeneric natCmp 32 3 demo = some 50 := by decide +kernel
+example : thresholdGeneric natCmp 32 3 demo 11 = [(1, 20), (2, 9)] := by decide +kernel
+example : argmaxF32Avx2 natCmp 96 3 demo = .ok (some (2, 9)) := by decide +kernel
+example : argmaxSse2 natCmp 32 96 3 demo = .ok (some (1, 20)) := by decide +kernel
+example : maxF32Avx2 natCmp 3 demo = some 50 := by decide +kernel
+example : maxU8Avx2 natCmp 3 demo = some 50 := by decide +kernel
+example : argmaxU8Avx2 u8Cmp 3 demoU8 = .ok (some (1, 20)) := by decide +kernel
+example : (∃ e, argmaxU8Avx2 u8Cmp 65537 demoU8 = .error e) :=
+  (argmaxU8Avx2_panic_iff _ _ _).2 (by decide)
+example : dispMaxF32 natCmp .avx2 3 demo = some 50 ∧ dispMaxF32 natCmp .sse2 3 demo = some 50 := by
+  decide +kernel
+example : scoresArgmax natCmp [3, 9, 2, 9, 1] = some 3 ∧ scoresMax natCmp [3, 9, 2, 9, 1] = some 9 ∧
+    scoresThreshold natCmp [3, 9, 2, 9, 1] 3 = [0, 1, 3] := by decide
+example : HoldsMax natCmp 3 32 demo (2, 9) :=
+  argmaxF32Avx2_spec natCmp natCmp_total 96 3 (by decide) demo (2, 9) (by decide +kernel)
+
+/-- the padding clause instantiated: scores in `Option Nat` with `none` = −∞ absorbing; motif of
+    width 2 over the alphabet {0, 1, wildcard 2}; sequence 0 1 1 0 of length 4 striped in 2 × 3 -/
+def optAdd : Option Nat → Option Nat → Option Nat
+  | some a, some b => some (a + b)
+  | _, _ => none
+
+def optCmp : Cmp (Option Nat) where
+  le a b := match a, b with
+    | none, _ => true
+    | some _, none => false
+    | some x, some y => Nat.ble x y
+  lt a b := match a, b with
+    | _, none => false
+    | none, some _ => true
+    | some x, some y => Nat.blt x y
+  zero := some 0
+  negInf := none
+
+def demoPssm (_j a : Nat) : Option Nat := if a = 2 then none else some (a + 1)
+def demoSeq (p : Nat) : Nat := [0, 1, 1, 0].getD p 0
+
+example : ∀ x, optAdd x none = none := by intro x; cases x <;> rfl
+example : ∀ x, optCmp.le x none = true → x = none := by
+  intro x; cases x <;> simp [optCmp]
+example : windowScore optAdd (some 0) demoPssm 2 (padSym demoSeq 4 2) 3 = none := by decide
+example : windowScore optAdd (some 0) demoPssm 2 (padSym demoSeq 4 2) 1 = some 4 := by decide
+example : argmaxGeneric optCmp 3 2
+    (fun r c => windowScore optAdd (some 0) demoPssm 2 (padSym demoSeq 4 2) (c * 2 + r)) = some (1, 0) := by
+  decide
+
+end Examples
 
 end C07
 end LMV
